@@ -297,6 +297,23 @@ def lifecycle_scenarios(rich: bool) -> list[dict]:
     return out
 
 
+def gateway_api_scenarios(rich: bool) -> list[dict]:
+    """No life-cycle operation at all: the QoS settings (max_retries x timeout x wait_for_reply x priority) handed over
+    through the Gateway's own entry points, where they pass Engine.async_send_cmd() on their way to the protocol - the
+    budget, back-off and timing clauses must hold for what the caller asked of the Gateway."""
+    out = []
+    deaf = [{"echo": None, "reply": None}]
+    half = [{"echo": 0.01, "reply": None}]
+    for mr in (0, 1, 2, 3, 5):
+        for to in ((20.0, 3.0, 0.7) if rich else (20.0,)):
+            for wfr in (None, True, False):
+                for kind, tx in (("RQ", deaf), ("RQ", half), ("I", deaf)) + ((("W", deaf), ("RQ", None)) if rich else ()):
+                    a = _gw_caller(1, 0.1, kind=kind, api="async", tx=tx, to=to, mr=mr, wfr=wfr, prio=0)
+                    b = _gw_caller(2, 0.15, kind="RQ", api="async", mr=1, to=20.0, prio=-2)     # queued behind, more urgent
+                    out.append({"via": "gateway", "mode": None, "callers": [a, b], "events": [], "dead": [], "seq": "api"})
+    return out
+
+
 def lifecycle_from_behaviour(beh: list[tuple[str, dict]], silent: list[int]) -> dict | None:
     """A behaviour of spec/GwyLife.tla (TLC -simulate: [(action, state)]) as a gateway-level scenario: the application's
     and the environment's steps (AStartCall, AStopCall, ADied) become events - half a second after the previous one when
